@@ -66,3 +66,88 @@ def main():
 
 if __name__ == "__main__":
     main()
+
+
+def more():
+    """Explorer determinism, codec round trips, model self-tests."""
+    import os
+    import sys
+    import warnings
+    warnings.simplefilter("ignore")
+    sys.path.insert(0, REPO)
+    from mc.ref import pointer
+    # RFC 6901 / 3986 codec round trip over hostile keys
+    keys = ["", "a", "/", "~", "~0", "~1", "~01", "~10", "%", "%25", "%2F", "#", "?", " ", '"', "\\", "é", "0", "01",
+            "-", "a/b", "/~", "\U0001F600"]
+    n = 0
+    for a in keys:
+        for b in keys:
+            for full in (False, True):
+                frag = pointer.fragment([a, b], full)
+                assert pointer.tokens(frag) == [a, b], (a, b, frag)
+                n += 1
+    doc = {"": {"": 1}, "a": [10, {"~1": 2}]}
+    assert pointer.resolve(doc, "") is doc and pointer.resolve(doc, "//") == 1 and pointer.resolve(doc, "/a/1/~01") == 2
+    for bad in ("/a/-1", "/a/01", "/a/2", "/a/+1", "/a/1/x", "/b", "/a/0/0"):
+        try:
+            pointer.resolve(doc, bad)
+            raise AssertionError(bad)
+        except pointer.PointerError:
+            pass
+    print("selftest: pointer codec: %d round trips ok" % n)
+    try:
+        from mc.ref import formats
+        if hasattr(formats, "selftest"):
+            formats.selftest()
+            print("selftest: format recognisers ok")
+    except ImportError:
+        pass
+    # thread scheduler: the same schedule twice gives identical observations
+    import jsonschema
+    from mc.explore import threads
+    from mc.props import c18
+    pkg = os.path.dirname(os.path.abspath(jsonschema.__file__))
+    outs = []
+    for _ in range(2):
+        s = threads.Sched(c18.bodies_for(7, (0, 1)), [0] * 7 + [1] + [0] * 20 + [1], pkg, "call")
+        results, points = s.run()
+        outs.append((repr(results), points))
+    assert outs[0] == outs[1], "thread schedule replay is not deterministic"
+    assert sum(p[3] for p in outs[0][1]) == 2
+    print("selftest: thread scheduler replay identical (%d scheduling points, 2 preemptions)" % len(outs[0][1]))
+    # history explorer on a toy model: counts are what combinatorics says
+    from mc.explore import history
+
+    class Toy(object):
+        all_ops = [("a",), ("b",), ("c",)]
+
+        def new_world(self):
+            return []
+
+        def ops(self, w):
+            return list(self.all_ops)
+
+        def deviation(self, op):
+            return 1 if op == ("c",) else 0
+
+        def apply(self, w, op):
+            w.append(op[0])
+            return (len(w),)
+
+        def outcome_class(self, op, obs):
+            return op[0]
+
+        def canon(self, w):
+            return (len(w) % 2, w.count("c"))
+
+        def check(self, w, hist, op, obs):
+            return None
+    r = history.explore(Toy(), Toy.all_ops, 2, 4, 1)
+    # depth 1: 3, depth 2: 9 minus ("c","c") = 8
+    assert r["unmerged_histories"] == 11, r["unmerged_histories"]
+    assert r["max_depth"] == 4 and not r["violations"]
+    print("selftest: history explorer toy model ok (%d transitions, %d merged states)" % (r["transitions"], r["merged_states"]))
+
+
+if __name__ == "__main__":
+    more()
